@@ -559,11 +559,12 @@ def _pattern(draw, streamer_spec, primes, stride_base, full=None, allow_zero_ss=
 
 @st.composite
 def _rescale(draw, n):
-    per_channel = draw(st.booleans())
-    cnt = n if per_channel else 1
+    # per-tensor (one value) or per-channel (n values), decided separately for the shifts and the multipliers
+    cnt_s = n if draw(st.booleans()) else 1
+    cnt_m = n if draw(st.booleans()) else 1
     return dict(zp_in=draw(st.integers(-128, 127)), zp_out=draw(st.integers(-128, 127)), max_int=draw(st.integers(0, 127)),
                 min_int=draw(st.integers(-128, 0)), double_round=draw(st.booleans()),
-                shift=[draw(st.integers(0, 63)) for _ in range(cnt)], mult=[draw(st.integers(1, 2 ** 30)) for _ in range(cnt)])
+                shift=[draw(st.integers(0, 63)) for _ in range(cnt_s)], mult=[draw(st.integers(1, 2 ** 30)) for _ in range(cnt_m)])
 
 
 def _opts_reg():
